@@ -310,6 +310,11 @@ func genC17(seed uint64, run int, tier string) *Case {
 			op.Src = pick(r, []string{"Patient.name.os(fs())", "Patient.name.osi(fs(), 5)", "Patient.name.where(os(fs()) = 'x')", "Patient.name.os(os(fs()))", "Patient.id.os(fs())"})
 			op.COpts = []COpt{{Kind: "fn", Name: "os", Fn: "obsS"}, {Kind: "fn", Name: "osi", Fn: "obsSI"}, {Kind: "fn", Name: "fs", Fn: fmt.Sprintf("fail:%d", op.K)}}
 			op.Opts = randOpts(nil)
+		case x < 19 && r.p(0.1):
+			op.Tmpl, op.K = "partial-leak", 1+r.n(3)
+			op.Src = pick(r, []string{"Patient.name.select(fp())", "Patient.name.select(fp()).count()", "Patient.name.select(fp().first())", "Patient.name.given.select(fp())", "Patient.name.where(fp().exists()).select(fp())", "Patient.name.fp()"})
+			op.COpts = []COpt{{Kind: "fn", Name: "fp", Fn: fmt.Sprintf("failpartial:%d", op.K)}}
+			op.Opts = randOpts(nil)
 		case x < 19 && r.p(0.12):
 			op.Tmpl = "context-after-clobber"
 			op.Src = pick(r, []string{"iif(cl().exists(), %context)", "cl().select(%context)", "tail().cl().select(%context)", "iif(cl().exists(), %context.tail()) | %context.first()"}[:3])
